@@ -66,6 +66,9 @@ pub enum Step {
     /// session's stream must stay one well-formed stream.
     #[serde(alias = "SecondInput")]
     InputAgain { content: Content, after_end: bool },
+    /// the client sends a session input to the session id of the most recent *thread run* (a run's
+    /// session is reachable under /sessions like any other; its input was the thread message)
+    InputToRun { content: Content, after_end: bool },
     /// the client cancels the most recent run through `POST /sessions/{id}/cancel`, this many ms
     /// after the previous step (a thread run's session, or a thread-less session): whatever
     /// cancelling does to the run, its lifecycle frames must still be complete
@@ -307,6 +310,17 @@ fn generate_runs(run_seed: u64, tier: Tier) -> RunsScenario {
     if irng.chance(1, 5) {
         crate::esim::inject_invalid_byte(&mut script, &mut irng);
     }
+    // own sub-stream: after 1 in 5 thread posts the client sends a session input to the run's session
+    let mut rrng = Rng::derive(run_seed, "c07:input-to-run");
+    let mut k = 0;
+    while k < steps.len() {
+        if matches!(steps[k], Step::Post { .. }) && rrng.chance(1, 5) {
+            let content = if rrng.chance(1, 2) { Content::Prompt("and another thing".into()) } else { Content::Tool { tool: "ls".into(), args: json!({"path": "."}), timeout_ms: None } };
+            steps.insert(k + 1, Step::InputToRun { content, after_end: rrng.chance(1, 2) });
+            k += 1;
+        }
+        k += 1;
+    }
     // own sub-stream: a third of the runs that are not waited for are cancelled 0-30 ms in, and 1 in
     // 8 of the others after their end
     let mut crng = Rng::derive(run_seed, "c07:cancel");
@@ -317,7 +331,7 @@ fn generate_runs(run_seed: u64, tier: Tier) -> RunsScenario {
             Step::Session { wait, .. } => (false, true, *wait),
             _ => (false, false, true),
         };
-        let next_is_again = matches!(steps.get(k + 1), Some(Step::InputAgain { .. }));
+        let next_is_again = matches!(steps.get(k + 1), Some(Step::InputAgain { .. }) | Some(Step::InputToRun { .. }));
         if (is_post || is_session) && !next_is_again && crng.chance(1, if waited { 8 } else { 3 }) {
             steps.insert(k + 1, Step::Cancel { after_ms: crng.below(30), thread_run: is_post });
             k += 1;
@@ -718,6 +732,26 @@ fn execute_runs(sc: &RunsScenario, env: &Env) -> (Outcome, RunStats) {
                     Ok((st, _)) => stats.bump(&format!("fault:session_cancel_requested:status_{st}"), 1),
                     Err(e) => return (Outcome::Harness(format!("cancel: {e}")), stats),
                 }
+            }
+            Step::InputToRun { content, after_end } => {
+                let Some(sid) = posts.last().map(|p| p.session_id.clone()) else {
+                    continue;
+                };
+                if *after_end {
+                    match wait_runs(&engine, &posts, &sessions, &mut seen_panics) {
+                        Ok(_) => {}
+                        Err(WaitErr::Harness(e)) => return (Outcome::Harness(e), stats),
+                        Err(e @ WaitErr::Stuck { .. }) => {
+                            stuck_early = Some(e);
+                            break;
+                        }
+                    }
+                }
+                match engine.call("POST", &format!("/sessions/{sid}/input"), Some(json!({"input": content.render(&checkpoints)}))) {
+                    Ok((st, _)) => stats.bump(&format!("input_to_run_session:status_{st}"), 1),
+                    Err(e) => return (Outcome::Harness(format!("send input to a run's session: {e}")), stats),
+                }
+                stats.bump("fault:session_input_sent_to_a_thread_run", 1);
             }
             Step::InputAgain { content, after_end } => {
                 let Some(sid) = sessions.last().cloned() else {
